@@ -37,6 +37,7 @@ func raceChildMain(tier string) int {
 	p := tierParams(ev.Tier(tier) == "thorough")
 	seed := ev.Seed()
 	res := raceChildResult{ByWorkload: map[string]int{}, ByCall: map[string]int{}}
+	startHeartbeat()
 
 	// workload 1: every accessor / mutator on a few shared contexts
 	ctxs := make([]frugal.FContext, p.raceCt)
@@ -64,6 +65,9 @@ func raceChildMain(tier string) int {
 			sink := 0
 			bar.wait()
 			for i := 0; i < p.raceN; i++ {
+				if i%128 == 0 {
+					tick()
+				}
 				ctx := ctxs[rng.Intn(len(ctxs))]
 				w := ctx.(frugal.FContextWithEphemeralProperties)
 				k := "k" + strconv.Itoa(rng.Intn(4))
@@ -167,6 +171,9 @@ func raceChildMain(tier string) int {
 			n := 0
 			bar2.wait()
 			for i := 0; i < p.raceN/2; i++ {
+				if i%128 == 0 {
+					tick()
+				}
 				switch rng.Intn(5) {
 				case 0:
 					frugal.NewFContext("")
@@ -207,6 +214,9 @@ func raceChildMain(tier string) int {
 				bar3.wait()
 				n := 0
 				for i := 0; i < p.raceN/4; i++ {
+					if i%128 == 0 {
+						tick()
+					}
 					if g < 4 {
 						s := strconv.Itoa(i)
 						orig.AddRequestHeader("q"+strconv.Itoa(g), s)
@@ -271,16 +281,15 @@ func stageRace(run *ev.Run, p params) {
 	cmd := exec.Command(bin, run.Tier, "--race-stage")
 	cmd.Env = append(os.Environ(), "GORACE=halt_on_error=0 exitcode=0 log_path="+filepath.Join(dir, "race"), "GOTRACEBACK=all")
 	var stdout bytes.Buffer
-	stderr := &cappedBuffer{max: 256 << 10}
-	cmd.Stdout, cmd.Stderr = &stdout, stderr
-	if err := cmd.Start(); err != nil {
-		run.Inconclusive("race: cannot start " + bin + ": " + err.Error())
+	cmd.Stdout = &stdout
+	silence := silenceLimit(run.Thorough())
+	m := runMonitored(cmd, silence, limit, tick) // the child's progress is this process's progress
+	if m.err != nil && m.exitCode == 0 {
+		run.Inconclusive("race: cannot run " + bin + ": " + m.err.Error())
 		return
 	}
-	killed := make(chan struct{})
-	timer := time.AfterFunc(limit, func() { close(killed); cmd.Process.Kill() })
-	werr := cmd.Wait()
-	timer.Stop()
+	werr := m.err
+	etxt := m.text
 	run.Eval(1)
 
 	// race reports
@@ -291,7 +300,7 @@ func stageRace(run *ev.Run, p params) {
 			reports = append(reports, raceReports(string(b))...)
 		}
 	}
-	reports = append(reports, raceReports(stderr.String())...) // in case log_path was not honoured
+	reports = append(reports, raceReports(etxt)...) // in case log_path was not honoured
 	lib, harness := 0, 0
 	for _, r := range reports {
 		wit := r
@@ -330,12 +339,13 @@ func stageRace(run *ev.Run, p params) {
 	}
 
 	// the child's death
-	etxt := stderr.String()
-	select {
-	case <-killed:
-		run.Inconclusive(fmt.Sprintf("race: child exceeded the %v watchdog", limit))
+	if m.hardLimit {
+		run.Inconclusive(fmt.Sprintf("race: child exceeded the overall %v limit", limit))
 		return
-	default:
+	}
+	if m.stalled {
+		judgeStall(run, "race-child", m, silence)
+		return
 	}
 	if i := strings.Index(etxt, "fatal error: concurrent map"); i >= 0 {
 		tail := etxt[i:]
